@@ -289,6 +289,10 @@ func (c *Client) BlockchainInfo(ctx context.Context, minHeight, maxHeight int64)
 			return nil, fmt.Errorf("block meta header %X does not match with trusted header %X",
 				bmH, tH)
 		}
+		if !meta.BlockID.Equals(h.Commit.BlockID) {
+			return nil, fmt.Errorf("block meta blockID %v does not match with trusted blockID %v",
+				meta.BlockID, h.Commit.BlockID)
+		}
 	}
 
 	return res, nil
@@ -332,6 +336,10 @@ func (c *Client) Block(ctx context.Context, height *int64) (*ctypes.ResultBlock,
 		return nil, fmt.Errorf("block header %X does not match with trusted header %X",
 			bH, tH)
 	}
+	if !res.BlockID.Equals(l.Commit.BlockID) {
+		return nil, fmt.Errorf("blockID %v does not match with trusted blockID %v",
+			res.BlockID, l.Commit.BlockID)
+	}
 	if err := c.verifyLastCommit(ctx, res.Block); err != nil {
 		return nil, err
 	}
@@ -368,6 +376,10 @@ func (c *Client) BlockByHash(ctx context.Context, hash []byte) (*ctypes.ResultBl
 	if bH, tH := res.Block.Hash(), l.Hash(); !bytes.Equal(bH, tH) {
 		return nil, fmt.Errorf("block header %X does not match with trusted header %X",
 			bH, tH)
+	}
+	if !res.BlockID.Equals(l.Commit.BlockID) {
+		return nil, fmt.Errorf("blockID %v does not match with trusted blockID %v",
+			res.BlockID, l.Commit.BlockID)
 	}
 	if err := c.verifyLastCommit(ctx, res.Block); err != nil {
 		return nil, err
